@@ -22,7 +22,7 @@ RULE = (
     "full Cartesian product: all tensor shapes with <=3 dims of sizes 1..3 (39 shapes) x counts 1..3 x dtype x "
     "contiguous/non-contiguous layout for tile/repeat_rows/split/merge/sum_except_batch; all sorted edge vectors "
     "over a 5-value alphabet (1..4 bins) x inputs on edges/ulp-neighbours/mid-points for searchsorted; sign/magnitude "
-    "alphabet for cbrt; all integer matrices over a small alphabet with non-zero determinant for logabsdet; features "
+    "alphabet for cbrt; all integer matrices over a small alphabet with non-zero determinant for logabsdet plus (shifted) diagonal matrices +-c of sizes 1..400 in both dtypes (determinant outside the dtype's range); features "
     "1..8 and every multinomial answer for the mask constructors; a type alphabet for the predicates. A case is "
     "non-trivial when the reference result has >1 element or the argument is illegal (exception contract)."
 )
@@ -256,6 +256,26 @@ def check_case(case):
             V("immutability", "argument modified (%s)" % what, "logabsdet modified %s" % k)
         return out
 
+    if fn == "logabsdet_diag":
+        # |det| itself leaves the dtype's range for these sizes while log|det| = n log c is harmless ("match their mathematical definitions")
+        n, c, dt, shift = case["n"], case["c"], {"float32": torch.float32, "float64": torch.float64}[case["dtype"]], case["shift"]
+        d = torch.tensor([c * (1.0 if i % 2 == 0 else -1.0) for i in range(n)], dtype=dt)
+        x = torch.diag(d)
+        if shift:
+            x = torch.roll(x, 1, dims=0)  # a cyclic row permutation: |det| unchanged
+        g = Guard(x=x)
+        try:
+            r = float(tu.logabsdet(x))
+        except Exception as e:
+            V("large", "raises %s" % type(e).__name__, "logabsdet(%dx%d, |entries| %g, %s) raised %s" % (n, n, c, case["dtype"], type(e).__name__))
+            return out
+        ref = n * math.log(c)
+        if not abs(r - ref) <= (1e-10 if dt == torch.float64 else 1e-5) * (1 + abs(ref)):
+            V("large", "wrong value", "logabsdet of the %dx%d %s matrix with entries +-%g on a (shifted) diagonal = %r, reference n log c = %r" % (n, n, case["dtype"], c, r, ref))
+        for k, what in g.changed():
+            V("immutability", "argument modified (%s)" % what, "logabsdet modified %s" % k)
+        return out
+
     if fn == "mask":
         f = case["features"]
         kind = case["kind"]
@@ -414,6 +434,11 @@ def gen_cases(group, tier):
         for x in xs:
             yield {"fn": "cbrt", "xs": [x], "dtype": "float64"}
     elif group == "logabsdet2":
+        for n in (1, 2, 5, 30, 60, 150, 400):
+            for c in (1e-2, 1e2, 1e-4, 3.0, 0.5):
+                for dtn in ("float32", "float64"):
+                    for shift in (False, True):
+                        yield {"fn": "logabsdet_diag", "n": n, "c": c, "dtype": dtn, "shift": shift}
         for vals in itertools.product(DET_ALPHA2, repeat=4):
             m = [list(vals[:2]), list(vals[2:])]
             if m[0][0] * m[1][1] - m[0][1] * m[1][0] != 0:
